@@ -22,7 +22,7 @@ let () =
       let line = input_line stdin in
       let parts = String.split_on_char ' ' line in
       let nums = List.filter_map (fun s -> if s = "" then None else Some (n_of_int (int_of_string s))) parts in
-      let out = run nums in
+      let out = judge_run nums in
       Buffer.clear buf;
       List.iteri (fun i x -> if i > 0 then Buffer.add_char buf ' '; Buffer.add_string buf (string_of_int (int_of_n x))) out;
       Buffer.add_char buf '\n';
